@@ -130,17 +130,17 @@ _add(PropertySpec(
 ))
 _add(PropertySpec(
     "C03", files=["compute_super", "unordered"],
-    targets=[f"superrec2.compute.unordered_super_reconciliation:_compute_lca_sets", f"{MRC}:SuperReconciliationOutput._unordered_labeling_cost", f"{MRC}:SuperReconciliationOutput.cost",
+    targets=[f"superrec2.compute.unordered_super_reconciliation:_compute_lca_sets", "superrec2.compute.unordered_super_reconciliation:_compute_gain_sets", f"{MRC}:SuperReconciliationOutput._unordered_labeling_cost", f"{MRC}:SuperReconciliationOutput.cost",
              f"{MRC}:ReconciliationOutput.node_event", f"{MRC}:ReconciliationOutput._cost_rec"],
     level="exploration", standins=["unordered-solvers:optimum-vs-brute-force", "uspfs-entry:recurrence-contract-at-runtime", "gain-sets-required-sets-precedence-graph:contracts-at-runtime"],
     technique="bounded stand-in (both unordered solvers against an independent optimum over every species mapping and EVERY admissible labelling, not only the canonical ones) plus "
               "contract-based deductive verification of the evaluator (unordered labelling cost, event model); the USPFS table contracts are not discharged",
-    not_decided=["recurrence contract of _compute_uspfs_entry, _compute_gain_sets, _compute_uspfs_table, _decode_uspfs_table, _uspfs and the wrappers: NOT discharged, bounded stand-in only",
+    not_decided=["recurrence contract of _compute_uspfs_entry, _compute_uspfs_table, _decode_uspfs_table, _uspfs and the wrappers: NOT discharged, bounded stand-in only",
                  "'the two canonical labellings per node lose nothing' is a theorem of the model: validated on the bounded scope only (oracle compares canonical vs all labellings)"],
 ))
 _add(PropertySpec(
     "C04", files=["compute_super", "unordered"],
-    targets=[f"superrec2.compute.unordered_super_reconciliation:_compute_lca_sets", f"{MRC}:ReconciliationOutput.node_event", f"{MRC}:ReconciliationOutput._cost_rec", f"{MRC}:ReconciliationOutput.cost",
+    targets=[f"superrec2.compute.unordered_super_reconciliation:_compute_lca_sets", "superrec2.compute.unordered_super_reconciliation:_compute_gain_sets", f"{MRC}:ReconciliationOutput.node_event", f"{MRC}:ReconciliationOutput._cost_rec", f"{MRC}:ReconciliationOutput.cost",
              f"{SUB}:subseq_segment_dist", f"{SUB}:subseq_from_mask", f"{SUB}:mask_from_subseq"],
     level="exploration", standins=["labelled-solvers:validity-of-returned-solutions", "reconciliation:thl-exh-vs-brute-force"],
     technique="bounded stand-in (validity clauses re-checked on every solution returned by the solvers, all cost vectors incl. segmental-loss cost 0) plus "
